@@ -213,7 +213,14 @@ def get_next_chunk(start: int,
     next_range = next_chunk(start, len(field), chunk_size)
     next_ = field.data[next_range[0]:next_range[1]]
     if next_range[1] != len(field):
-        next_range = next_range[0], next_range[0] + count_back(next_)
+        trimmed_length = count_back(next_)
+        if trimmed_length == 0:
+            # the whole chunk is a single run of equal values that continues beyond it: an empty
+            # trimmed chunk would be returned forever and the caller would never make progress
+            raise ValueError("A run of equal key values starting at index {} is at least as long as "
+                             "the chunk size ({}); use a larger chunk size".format(next_range[0],
+                                                                                    chunk_size))
+        next_range = next_range[0], next_range[0] + trimmed_length
     return next_range, next_
 
 
